@@ -123,7 +123,7 @@ class LayoutEngine(object):
     def is_serializable(self, ci):
         return isinstance(ci, ClassInfo) and self.repo.is_subclass(ci, self.serializable_base)
 
-    def struct_call(self, call, fi, which):
+    def struct_call(self, call, fi, which, env=None):
         """is `call` struct.pack / struct.unpack (which) or STRUCTVAL.pack/unpack? -> fmt or None"""
         if not (isinstance(call, ast.Call) and isinstance(call.func, ast.Attribute) and call.func.attr == which):
             return None
@@ -131,7 +131,7 @@ class LayoutEngine(object):
         if isinstance(base, ExternalRef) and base.name == 'struct':
             if not call.args:
                 return None
-            fmt = self.fold(call.args[0], fi)
+            fmt = self.fold(call.args[0], fi, env)
             if fmt is UNKNOWN:
                 raise Undecided('struct.%s format does not fold' % which, call)
             return ('mod', fmt_str(fmt))
@@ -431,7 +431,7 @@ class _WState(object):
                 return []
             then = self.block(s.body)
             orelse = self.block(s.orelse)
-            return [Item('cond', guard=norm(self.subst(s.test)), then=then, orelse=orelse, node=s, test=s.test)]
+            return [Item('cond', guard=norm(self.subst(canon_test(s.test))), then=then, orelse=orelse, node=s, test=canon_test(s.test))]
         if isinstance(s, ast.For):
             if not any(_touches(x, st) for st in self.streams for x in s.body) and not self._writes_buf(s):
                 return []
@@ -660,7 +660,7 @@ class _WState(object):
         if isinstance(e, ast.BinOp) and isinstance(e.op, ast.Add):
             return self.value_items(e.left) + self.value_items(e.right)
         # struct.pack(fmt, a, b, ...)
-        sc = eng.struct_call(e, fi, 'pack')
+        sc = eng.struct_call(e, fi, 'pack', self.venv)
         if sc is not None:
             kind, fmt = sc
             vals = e.args[1:] if kind == 'mod' else e.args
@@ -771,7 +771,7 @@ class _RState(object):
             if isinstance(t, ast.Attribute) and isinstance(t.value, ast.Name):
                 return self.assign(None, (t.value.id, t.attr), s.value, s)
             if isinstance(t, ast.Tuple) and all(isinstance(x, ast.Name) for x in t.elts):
-                sc = eng.struct_call(s.value, fi, 'unpack')
+                sc = eng.struct_call(s.value, fi, 'unpack', self.venv)
                 if sc is not None:
                     return self.unpack_items(s.value, sc, [x.id for x in t.elts], s)
             if _touches(s, self.stream):
@@ -804,7 +804,7 @@ class _RState(object):
                 return []
             then = self.block(s.body)
             orelse = self.block(s.orelse)
-            return [Item('cond', guard=norm(self.subst(s.test)), then=then, orelse=orelse, node=s, test=s.test)]
+            return [Item('cond', guard=norm(self.subst(canon_test(s.test))), then=then, orelse=orelse, node=s, test=canon_test(s.test))]
         if isinstance(s, ast.For):
             if not any(_touches(x, self.stream) for x in s.body):
                 return []
@@ -812,6 +812,19 @@ class _RState(object):
             if isinstance(it, ast.Call) and norm(it.func) == 'range' and len(it.args) == 1:
                 body = self.block(s.body)
                 return [Item('loop', count=norm(self.subst(it.args[0])), body=body, node=s)]
+            raise Undecided('unmodelled reader loop', s)
+        if isinstance(s, ast.While) and _touches(s, self.stream):
+            # while len(acc) < n: acc.append(<read>)   ==   for _ in range(n): acc.append(<read>)   (acc starts empty)
+            t = s.test
+            if (isinstance(t, ast.Compare) and len(t.ops) == 1 and isinstance(t.ops[0], ast.Lt) and isinstance(t.left, ast.Call)
+                    and norm(t.left.func) == 'len' and len(t.left.args) == 1 and isinstance(t.left.args[0], ast.Name)
+                    and t.left.args[0].id in self.lists and not s.orelse and len(s.body) == 1):
+                acc = t.left.args[0].id
+                b = s.body[0]
+                if (isinstance(b, ast.Expr) and isinstance(b.value, ast.Call) and isinstance(b.value.func, ast.Attribute)
+                        and b.value.func.attr == 'append' and norm(b.value.func.value) == acc):
+                    body = self.block(s.body)
+                    return [Item('loop', count=norm(self.subst(t.comparators[0])), body=body, node=s)]
             raise Undecided('unmodelled reader loop', s)
         if isinstance(s, ast.Return):
             return self.ret(s)
@@ -888,7 +901,7 @@ class _RState(object):
             return None
         # struct.unpack(fmt, ser_read(f, n))[0]
         if isinstance(e, ast.Subscript) and isinstance(e.value, ast.Call):
-            sc = eng.struct_call(e.value, fi, 'unpack')
+            sc = eng.struct_call(e.value, fi, 'unpack', self.venv)
             if sc is not None:
                 idx = self.ff(e.slice, fi)
                 kind, fmt = sc
@@ -908,6 +921,17 @@ class _RState(object):
                 if nv == 1 and idx == 0:
                     return [Item('int', fmt='B', var='$', node=e, read_n=1, total=1)]
                 raise Undecided('indexing a ser_read result', s)
+        if isinstance(e, (ast.ListComp, ast.GeneratorExp)) and len(e.generators) == 1 and not e.generators[0].ifs:
+            it = e.generators[0].iter
+            if isinstance(it, ast.Call) and norm(it.func) == 'range' and len(it.args) == 1:
+                inner = self.read_expr(e.elt, s)
+                if inner is None:
+                    raise Undecided('comprehension without a read', s)
+                for i in inner:
+                    if i.get('var') == '$':
+                        i.var = '$[]'
+                return [Item('loop', count=norm(self.subst(it.args[0])), body=inner, var='$', node=e)]
+            raise Undecided('unmodelled comprehension read', s)
         if isinstance(e, ast.Call):
             n = eng.is_ser_read(e, fi, self.stream)
             if n is not None:
@@ -1011,6 +1035,13 @@ class _RState(object):
                 if isinstance(recv, ast.Name) and recv.id in fi.params:
                     # class passed as a parameter (VectorSerializer's inner_cls), analysed stand-alone
                     return [Item('sub', cls=None, var='$', args={}, node=e, symbolic=recv.id)]
+                if isinstance(recv, ast.Call) and not _touches(recv, self.stream):
+                    # Cls(<placeholder>).stream_deserialize(f): a freshly built instance as the receiver
+                    cv = self.ff(recv.func, fi)
+                    if isinstance(cv, ClassRef) and eng.is_serializable(cv.info):
+                        tgt = eng.repo.lookup_method(cv.info, meth)
+                        args = self.call_args(e, tgt, sidx) if tgt else {}
+                        return [Item('sub', cls=cv.info.name, var='$', args=args, node=e, via_instance=norm(recv))]
                 raise Undecided('unresolved reader receiver: %s' % norm(e)[:80], s)
         raise Undecided('unmodelled read expression: %s' % norm(e)[:80], s)
 
@@ -1074,8 +1105,109 @@ class _RState(object):
 def normalise(items):
     """Canonicalise: flatten inlines/buffers, recognise varbytes / vector, resolve reader vars to fields."""
     items = _flatten(items)
+    items = _merge_guards(items)
     items = _recognise(items)
     return items
+
+
+def canon_test(t):
+    """`True if c else False` -> c ; `bool(c)` -> c ; `not not c` -> c   (spellings of one guard)"""
+    while True:
+        if isinstance(t, ast.IfExp) and isinstance(t.body, ast.Constant) and isinstance(t.orelse, ast.Constant) \
+                and t.body.value is True and t.orelse.value is False:
+            t = t.test
+        elif isinstance(t, ast.IfExp) and isinstance(t.body, ast.Constant) and isinstance(t.orelse, ast.Constant) \
+                and t.body.value is False and t.orelse.value is True:
+            t = ast.UnaryOp(op=ast.Not(), operand=t.test)
+        elif isinstance(t, ast.Call) and isinstance(t.func, ast.Name) and t.func.id == 'bool' and len(t.args) == 1 and not t.keywords:
+            t = t.args[0]
+        elif isinstance(t, ast.UnaryOp) and isinstance(t.op, ast.Not) and isinstance(t.operand, ast.UnaryOp) and isinstance(t.operand.op, ast.Not):
+            t = t.operand.operand
+        else:
+            return t
+
+
+def _gkey(c):
+    """(text of the guard without a leading `not`, polarity)"""
+    t = c.get('test')
+    if t is None:
+        g = c.guard
+        return (g[4:], False) if g.startswith('not ') else (g, True)
+    t = canon_test(t)
+    if isinstance(t, ast.UnaryOp) and isinstance(t.op, ast.Not):
+        return (norm(canon_test(t.operand)), False)
+    return (norm(t), True)
+
+
+def _copy_item(i):
+    new = Item.__new__(Item)
+    new.__dict__.update(i.__dict__)
+    for f in ('then', 'orelse', 'body', 'elem', 'items'):
+        v = i.__dict__.get(f)
+        if isinstance(v, list):
+            new.__dict__[f] = [_copy_item(x) for x in v]
+    return new
+
+
+def _resolve_guard(seq, base, value):
+    out = []
+    for it in seq:
+        if it.kind == 'cond' and _gkey(it)[0] == base:
+            taken = it.then if _gkey(it)[1] == value else it.orelse
+            out.extend(_resolve_guard([_copy_item(x) for x in taken], base, value))
+        else:
+            out.append(_copy_item(it))
+        if out and out[-1].kind in ('return', 'raise'):
+            break
+    return out
+
+
+def _merge_guards(items):
+    """Several conditionals on one guard in a row (`if g: A1` ... `if g: A2` ...) are one conditional over the whole
+    tail: [X, cond(g: A1|B1), Y, cond(g: A2|B2), Z] == [X, cond(g: A1 Y A2 Z | B1 Y B2 Z)].  Sound when nothing in
+    between assigns a name the guard reads (checked on the items' variables)."""
+    items = list(items)
+    for c in items:
+        if c.kind == 'cond':
+            c.then = _merge_guards(c.then)
+            c.orelse = _merge_guards(c.orelse)
+        elif c.kind in ('loop', 'vector'):
+            for f in ('body', 'elem'):
+                if isinstance(c.get(f), list):
+                    setattr(c, f, _merge_guards(c.get(f)))
+    for i, c in enumerate(items):
+        if c.kind != 'cond':
+            continue
+        base, pol = _gkey(c)
+        later = [j for j in range(i + 1, len(items)) if items[j].kind == 'cond' and _gkey(items[j])[0] == base]
+        if not later:
+            continue
+        names = set(_re_names(base))
+        between = items[i + 1:later[-1]]
+        if any((x.get('var') or '').rstrip('[]') in names for x in between):
+            continue
+        tail = items[i + 1:]
+        new = Item('cond', guard=c.guard, then=list(c.then) + _resolve_guard(tail, base, pol),
+                   orelse=list(c.orelse) + _resolve_guard(tail, base, not pol), node=c.node, test=c.get('test'))
+        if not pol:
+            # positive polarity for the merged conditional
+            new.guard = base
+            new.then, new.orelse = new.orelse, new.then
+            t = canon_test(c.get('test')) if c.get('test') is not None else None
+            new.test = canon_test(t.operand) if isinstance(t, ast.UnaryOp) and isinstance(t.op, ast.Not) else t
+        for br in ('then', 'orelse'):
+            seq = getattr(new, br)
+            for k, x in enumerate(seq):
+                if x.kind in ('return', 'raise'):
+                    setattr(new, br, seq[:k + 1])
+                    break
+        return items[:i] + [new]
+    return items
+
+
+def _re_names(text):
+    import re
+    return re.findall(r'[A-Za-z_][A-Za-z_0-9]*', text)
 
 
 def _flatten(items):
